@@ -362,11 +362,78 @@ def run(ctx):
     oldend_slot = FL.slot_of_local(f, "old_end")
     ctx.require(obj_slot and oldend_slot, "Ports::dispatch: locals obj / old_end not found")
     # callback invocations: calls of std::function::operator()
-    cbs = [c for c in f.calls() if not c.indirect and re.match(r'^std::function<void \(char const\*, rtosc::RtData&\)>::operator\(\)', P.dm(c.callee))]
+    CBRE = r'^std::function<void \(char const\*, rtosc::RtData&\)>::operator\(\)'
+    cbs = [c for c in f.calls() if not c.indirect and re.match(CBRE, P.dm(c.callee))]
+    # a local lambda ([&]) or helper of the unit that wraps one callback invocation - typically `count, call the default handler,
+    # restore d.obj` - stands for that invocation at each of its call sites; what it does itself (the count in front of the call,
+    # the restore behind it from the captured `obj`) is established on its own body
+    helper_facts = {}
+    for c in f.calls():
+        if c.indirect or not c.callee or c.callee not in m.functions or c.callee == f.name:
+            continue
+        h = m.functions[c.callee]
+        if not h.blocks:
+            continue
+        hcbs = [x for x in h.calls() if not x.indirect and re.match(CBRE, P.dm(x.callee))]
+        if len(hcbs) != 1:
+            continue
+        # only a lambda of dispatch itself whose one invocation is the table's default handler is followed; any other helper
+        # (one that wraps a port's callback, a function of the unit) is left alone - the count below then says "no verdict"
+        if not re.search(r'::\$_\d+::operator\(\)|\{lambda', P.dm(c.callee)):
+            continue
+        hdefs0 = h.defs()
+        tgt0 = hdefs0.get(hcbs[0].args[0])
+        I_dh = field_index(u, "Ports", "default_handler")
+        if not (tgt0 is not None and tgt0.op == "getelementptr" and '%"struct.rtosc::Ports"' in tgt0.text.split(",")[0] and re.search(r'i32 0, i32 %d\s*$' % I_dh, tgt0.text.split(", !dbg")[0])):
+            continue
+        if c.callee not in helper_facts:
+            hcb = hcbs[0]
+            hdefs = h.defs()
+            hrt = geps(h, "struct.rtosc::RtData")
+            incs_h = []
+            rest_h = []
+            for i in h.insts():
+                if i.op != "store":
+                    continue
+                v, p_ = G.parse_store(i)
+                if p_ in hrt and hrt[p_] == I_matches:
+                    dv = hdefs.get(v)
+                    if dv is not None and dv.op == "add" and re.search(r', 1\b', dv.text):
+                        incs_h.append(i)
+                elif p_ in hrt and hrt[p_] == I_obj:
+                    # the value: load of (load of closure field k), field k bound in dispatch to the address of `obj`
+                    dv = hdefs.get(v)
+                    src = hdefs.get(G.parse_load(dv)) if dv is not None and dv.op == "load" else None
+                    fld = hdefs.get(G.parse_load(src)) if src is not None and src.op == "load" else None
+                    mk = re.search(r'getelementptr inbounds %(class\.anon[.\d]*), %\1\* %[-\w.]+, i32 0, i32 (\d+)', fld.text) if fld is not None and fld.op == "getelementptr" else None
+                    if mk:
+                        bound = False
+                        for j in f.insts():
+                            if j.op == "store":
+                                jv, jp = G.parse_store(j)
+                                jd = defs.get(jp)
+                                if jv == obj_slot and jd is not None and jd.op == "getelementptr" and re.search(r'%%%s\* %%[-\w.]+, i32 0, i32 %s\s*$' % (re.escape(mk.group(1)), mk.group(2)), jd.text.split(", !dbg")[0]):
+                                    bound = True
+                        if bound:
+                            rest_h.append(i)
+            hrets = [i for i in h.insts() if i.op == "ret"]
+            helper_facts[c.callee] = {
+                "counts": any(mi.block is hcb.block and h.dominates(mi, hcb) for mi in incs_h) and len(incs_h) == 1,
+                "any_count": bool(incs_h),
+                "restores": bool(rest_h) and FL.escapes(h, hcb, rest_h, hrets) is None,
+                "loops": bool(FL.back_edges(h)),
+            }
+        ctx.require(not helper_facts[c.callee]["loops"], "Ports::dispatch: the helper %s that invokes a callback contains a loop" % P.dm(c.callee))
+        cbs.append(c)
+    helper_calls = {id(c): helper_facts[c.callee] for c in cbs if c.callee in helper_facts}
+    if helper_calls:
+        ctx.note("Ports::dispatch: %d call(s) of a local helper that wraps one callback invocation stand for that invocation (%s)" % (len(helper_calls), ", ".join(sorted({P.dm(k_)[-40:] for k_ in helper_facts}))))
     ctx.require(len(cbs) >= 5, "Ports::dispatch: expected at least 5 callback invocations (3 port.cb, default_handler in every lookup branch), found %d" % len(cbs))
 
     def cb_kind(c):
         """('port', slot of the Port pointer) or ('default', None)"""
+        if id(c) in helper_calls:
+            return "default", None
         o = defs.get(c.args[0])
         if o is not None and o.op == "getelementptr" and c.args[0] in pt and pt[c.args[0]] == P_cb:
             base = defs.get(o.ops[0])
@@ -428,7 +495,7 @@ def run(ctx):
                     ok = True
             ctx.ob("R04.1", name + ": d.port", ok, site=c.where(), what="the port callback at %s runs without d.port having been set to that port" % c.where())
         sinks = FL.loop_latches_for(f, c) + rets
-        esc = FL.escapes(f, c, obj_restores, sinks)
+        esc = None if (id(c) in helper_calls and helper_calls[id(c)]["restores"]) else FL.escapes(f, c, obj_restores, sinks)
         ctx.ob("R04.1", name + ": d.obj restored", esc is None, site=c.where(),
                what="after the callback at %s a path reaches %s without restoring d.obj" % (c.where(), esc.where() if esc is not None else ""))
         # ---- R04.2
@@ -466,6 +533,12 @@ def run(ctx):
             else:
                 mine = [mi for mi in incs if f.dominates(mi, c) and mi.block is c.block or (f.dominates(mi, c) and not any(f.reaches(mi, o) and f.reaches(o, c) for o in cbs if o is not c))]
                 mine = [mi for mi in mine if mi.block is c.block]
+                if id(c) in helper_calls and helper_calls[id(c)]["any_count"]:
+                    # the helper counts itself: exactly once in front of its call, and the caller does not count again
+                    okh = helper_calls[id(c)]["counts"] and not mine
+                    ctx.ob("R04.3", name, okh, site=c.where(), detail={"counted_inside_the_helper": helper_calls[id(c)]["counts"], "increments_at_the_call_site": [x.where() for x in mine]},
+                           what="default handler at %s: expected one unconditional d.matches++ right before it (inside the helper that wraps it, and none at the call site)" % c.where())
+                    continue
                 ctx.ob("R04.3", name, len(mine) == 1, site=c.where(), detail={"increments": [x.where() for x in mine]},
                        what="default handler at %s: expected one unconditional d.matches++ right before it" % c.where())
     ctx.require(nloc == 2, "Ports::dispatch: expected 2 port callbacks in the location branches, found %d" % nloc)
@@ -618,6 +691,14 @@ def run(ctx):
             sibs = A.kids(par)
             after = sibs[[s_.get("id") for s_ in sibs].index(lp.get("id")) + 1:]
         uses = any(y.get("kind") == "MemberExpr" and y.get("name") == "default_handler" for s_ in after for y in A.walk(s_))
+        if not uses:
+            # ... or a call of a local lambda / a helper of the unit whose own body consults default_handler
+            def _mentions_dh(root):
+                return any(y.get("kind") == "MemberExpr" and y.get("name") == "default_handler" for y in A.walk(root))
+            lam_ids = {d_["id"] for d_ in A.walk(u.body(h_)) if d_.get("kind") == "VarDecl" and any(z.get("kind") == "LambdaExpr" and _mentions_dh(z) for z in A.walk(d_))}
+            helpers_dh = {g_.get("name") for g_ in hosts10 if g_ is not fd10 and _mentions_dh(u.body(g_))}
+            uses = any((y.get("kind") == "DeclRefExpr" and (y.get("referencedDecl") or {}).get("id") in lam_ids) or
+                       (y.get("kind") == "CallExpr" and A.callee_name(y) in helpers_dh) for s_ in after for y in A.walk(s_))
         ctx.ob("R04.10", "linear scan@%s" % A.loc(lp)[1], uses, site=A.where(lp), detail={"followed_by_default_handler": uses},
                key="R04.10:scan@%s" % ("with location" if any(y.get("kind") == "MemberExpr" and y.get("name") == "matches" for y in A.walk(lp)) else "without location"),
                what="the linear scan of Ports::dispatch at %s ends without consulting default_handler: a message no port matches reaches the default handler only through the hashed lookup (with a location buffer and a collision-free table)" % A.where(lp))
